@@ -269,6 +269,101 @@ def run(ctx):
             break
         spec = gen_case(ctx, case, rng)
         execute(ctx, spec)
+    run_number_broken(ctx)
+
+
+def nb_operator(rng, norb, fam, FermionOperator, hermitian_conjugated):
+    """Sz-conserving operators that need not conserve the particle number"""
+    op = FermionOperator()
+
+    def c():
+        return complex(U.gint(rng, zero_p=0.0) or 1)
+    for _ in range(rng.randint(1, 3)):
+        p, q, r, t = (rng.randrange(norb) for _ in range(4))
+        if fam == "pairing":
+            op += FermionOperator(((2 * p, 1), (2 * q + 1, 1)), c())
+        elif fam == "hop":
+            op += FermionOperator(((2 * p, 1), (2 * q, 0)), c()) + FermionOperator(((2 * r + 1, 1), (2 * t + 1, 0)), c())
+        elif fam == "quartic":
+            # a^_pa a^_qb a^_rb a_tb : Sz conserved, N changes by two (vanishes when q == r)
+            op += FermionOperator(((2 * p, 1), (2 * q + 1, 1), (2 * r + 1, 1), (2 * t + 1, 0)), 2 * c())
+        else:   # mixed
+            op += FermionOperator(((2 * p, 1), (2 * q + 1, 1)), c()) + FermionOperator(((2 * r, 1), (2 * t, 0)), c())
+            op += FermionOperator(((2 * p + 1, 0), (2 * q, 0), (2 * r, 1), (2 * t, 0)), 2 * c())
+    return op
+
+
+def run_number_broken(ctx):
+    """number-broken (Sz-conserving) wavefunctions: apply = exact action in the convention iota' = iota * nbTwist
+    (Spec/Embed.lean embedSignNB); operators with pairing terms, through every entry point"""
+    fqe = ctx.fqe
+    from openfermion import FermionOperator, hermitian_conjugated, normal_ordered
+    d, rng = ctx.driver, ctx.rng
+    quick = ctx.tier == "quick"
+    for case in range(40 if quick else 600):
+        if ctx.out_of_time():
+            break
+        norb = rng.choice([2, 2, 3] if quick else [2, 3, 3, 4])
+        sz = rng.randint(-norb + 1, norb - 1)
+        w = fqe.get_spin_conserving_wavefunction(sz, norb)
+        U.random_fill(w, rng)
+        fam = ["pairing", "hop", "quartic", "mixed"][case % 4]
+        op = nb_operator(rng, norb, fam, FermionOperator, hermitian_conjugated)
+        herm = True      # the FermionOperator entry points require a Hermitian operator (refused otherwise: C14)
+        op = op + hermitian_conjugated(op)
+        e0 = rng.choice([0, 0, 2, complex(-1, 3)]) if herm else 0
+        nop = normal_ordered(op)
+        nterms = len([t for t, c in nop.terms.items() if t and abs(c) > 0])
+        if nterms == 0:
+            continue
+        entries = U.wfn_entries(w)
+        terms = U.fermionop_terms(op)
+        if e0 != 0:
+            terms = list(terms) + [(complex(e0), [])]
+        want = U.parse_vec(d.ask(f"applynb {norb} {fmt_vec_local(entries)} {fmt_op_local(terms)}"))
+        api = rng.choice(["wfn.apply(op)", "fqe.apply(op, wfn)", "wfn.apply(hamiltonian)"]) if e0 == 0 else "wfn.apply(hamiltonian)"
+        desc = {"family": fam, "norb": norb, "sz": sz, "hermitian": herm, "e0": enc_c(e0), "api": api, "nterms": nterms, "case": case,
+                "entries": [[a, b, enc_c(c)] for a, b, c in entries],
+                "op": [[[list(f) for f in t], enc_c(c)] for t, c in op.terms.items()]}
+        try:
+            if api == "wfn.apply(op)":
+                out = w.apply(op)
+            elif api == "fqe.apply(op, wfn)":
+                out = fqe.apply(op, w)
+            else:
+                ham = fqe.get_hamiltonian_from_openfermion(op, norb=norb, conserve_number=False, e_0=e0)
+                out = w.apply(ham)
+        except Exception as exc:
+            ctx.case(None)
+            ctx.count(f"numberbroken:raises:{type(exc).__name__}")
+            if nterms <= 2 and isinstance(exc, ValueError) and "Number non-conserving" in str(exc):
+                # domain restriction (DESIGN 0.5): the sparse route (<= 2 terms) refuses number-changing strings loudly
+                ctx.count("numberbroken:sparse-route-refuses-number-changing-operator")
+                continue
+            sig = f"apply-raises:numberbroken:{fam}:{type(exc).__name__}"
+            if nterms <= 2:
+                sig = f"apply-raises:numberbroken:nterms=1-2:{type(exc).__name__}"
+            ctx.disagree(sig, f"{api} raised {type(exc).__name__}: {str(exc)[:200]}", desc)
+            continue
+        bad = U.compare_wfn(out, want, tol=1e-9)
+        nontrivial = any(v[0] < 0 or v[1] != 0 for v in want.values()) and len(want) > 0
+        ctx.case(("numberbroken", case) if nontrivial else None,
+                 sample={k: desc[k] for k in ("family", "norb", "sz", "api", "nterms")} if case < 4 else None)
+        ctx.count(f"numberbroken:{fam}")
+        if bad:
+            sig = f"apply:numberbroken:{fam}" + (":nterms=1-2" if nterms <= 2 else "")
+            ctx.disagree(sig, f"{api} on a number-broken wavefunction differs from the exact action on {len(bad)} determinants, "
+                         f"e.g. {bad[0]}", desc)
+
+
+def fmt_vec_local(entries):
+    from lean_driver import fmt_vec
+    return fmt_vec(entries)
+
+
+def fmt_op_local(terms):
+    from lean_driver import fmt_op
+    return fmt_op(terms)
 
 
 def classify(ctx, desc, loc):
